@@ -48,7 +48,7 @@ def random_schema(rng, variant):
     cols, off = [], 0
     packed_at = None
     for _ in range(ncol):
-        t = rng.choice(TYPES if variant == 1 else [x for x in TYPES if x != 0])
+        t = rng.choice(TYPES)
         if 25 <= t <= 32:
             if packed_at is not None and not any(c == (t, packed_at) for c in cols) and rng.random() < 0.7:
                 cols.append((t, packed_at))
@@ -158,7 +158,7 @@ def check(run):
                 "sheets (1..40 columns, shared packed-bool bytes, 1..200 rows, extreme values, unknown ids); sheets stored in synthetic "
                 "archives (root.exl, headers, pages per language) read through GameData; distinct by file bytes, all non-trivial")
     run.conform(cases, MODULE, CFG, shards=14, xmx="4g")
-    run.assumptions = ["string cells only in plain sheets (string addressing inside sub-rows is undocumented)",
+    run.assumptions = ["string cells of sub-row sheets are laid out the way the library reads them (one heap behind the last sub-row, offsets counted from the end of the own sub-row's fixed region): undocumented, so this part can show regressions, not findings",
                        "only the first entry of the EXH language table is compared (entry width unverifiable offline)",
                        "Bool cells hold 0 or 1"]
 
